@@ -65,7 +65,7 @@ def seeded():
     metas = [json.load(open(m)) for m in sorted(glob.glob(os.path.join(VERIF, 'seeded', '*', 'meta.json')))]
     ids = [os.path.basename(os.path.dirname(m)) for m in sorted(glob.glob(os.path.join(VERIF, 'seeded', '*', 'meta.json')))]
     missed = [i for i, j in zip(ids, metas) if not (j.get('detected_by') or [])]
-    summary = ['', '**Summary**: %d seeded changes in four rounds (ids `Cxx-mK` first round, `Cxx-r2mK` second, `Cxx-r3mK` third - 2 changes for each of the 20 properties, written after the repair of C07-1 -, `Cxx-r4mK` fourth - 2 changes for each of the 11 properties that had a miss in the third round, written against the strengthened checks), %d confirmed by us, %d caught by at least one check (quick tier), %d not caught: %s.' % (len(ids), sum(1 for j in metas if j.get('confirmed_by_us')), len(ids) - len(missed), len(missed), ', '.join(missed) or '-'),
+    summary = ['', '**Summary**: %d seeded changes in five rounds (ids `Cxx-mK` first round, `Cxx-r2mK` second, `Cxx-r3mK` third - 2 changes for each of the 20 properties, written after the repair of C07-1 -, `Cxx-r4mK` fourth - 2 changes for each of the 11 properties that had a miss in the third round, written against the strengthened checks, `Cxx-r5mK` fifth - 2 changes for each of 8 further properties, asked for small failing inputs that need a particular way of calling the library), %d confirmed by us, %d caught by at least one check (quick tier), %d not caught: %s.' % (len(ids), sum(1 for j in metas if j.get('confirmed_by_us')), len(ids) - len(missed), len(missed), ', '.join(missed) or '-'),
                'The table shows the state after the checks were strengthened (the notes under each property in section 4 say which universes were added for which miss).', 'Not caught: ' + notes.get('_missed', '')]
     return '\n'.join(['Each change was written by a fresh sub-agent that saw only the property text and its own worktree; we confirmed it', '(demo passes on the unmodified tree, fails with the change, test suite unchanged) and ran the listed checks against a', 'worktree with the patch applied (`seedtest.py`).', '',
                       '| seed | property | change | confirmed | caught by | first violation reported |', '|---|---|---|---|---|---|'] + rows + summary)
